@@ -99,6 +99,16 @@ def main(run):
         return run.finish('other', {'explanation': 'anchor lost', 'evaluations': 1, 'distinct_nontrivial': 2})
     n = handle_paths(run, P)
     wiring(run, P)
+    # frame: after every handle operation the decomposition of the enclosing buffer is "path = the edited window, every other
+    # component unchanged"; an absolute path stays absolute, a relative one relative (Engine D3)
+    from .. import pathclosure
+    ctx = sites.Ctx(P)
+    ok, ncalls = pathmut.make_root_guarded(P)
+    if not ok:
+        run.violation('make_root|guard', 'PathMutImpl::make_root is called without the needs_root() guard under which it is verified')
+    st = pathclosure.check(None, run, P, ctx, ['uri::Uri', 'uri::reference::UriRef', 'iri::Iri', 'iri::reference::IriRef'], ['uri::path::Path', 'iri::path::Path'],
+                           methods=('push', 'pop', 'clear', 'make_root'), run_kind=run)
+    run.floor('path_frame_checks', 100, 'handle paths whose marked result language was checked')
     npairs = sibling.check(run, P, 'C10', only=lambda nm: 'path_mut' in nm or 'PathMut' in nm or re.search(r'::PathBuf::', nm) is not None)
     run.floor('handle_paths', 45, 'symbolic paths through the path handle')
     return run.finish('model_checking', {
